@@ -2640,6 +2640,7 @@ def c14_loop_shadow_cases(seed, tier):
         ("Q", ["let w = 0;", "while(w < 2)", "let Q = 80 + w;", "(Q) X X", "let w = w + 1;", "end while", "(Q) X X"]),
         ("j", ["loop(i,2)", "loop(j,2)", "(i+j) X X", "end loop", "end loop"]),
     ]:
+        prog = prog + (["(1) X X", "(2) X X"] if not prog[-1].startswith("(") else ["(3) X X"])
         for decl in ("%s + 100" % oname, "%s" % oname, "ite(%s > 5, %s, 0 - %s)" % (oname, oname, oname)):
             for vcol in (True, False):
                 sigs = [{"name": "A", "typ": "I", "bits": 8, "default": "0"}, {"name": oname, "typ": "O", "bits": 8, "default": "-"},
@@ -2743,7 +2744,7 @@ def c19_dup_rows_cases(seed, tier):
         ["", "", "A Q", "loop(i,2)", "(i) X", "(i) X", "end loop", "(i+0) X", "loop(i,2)", "(i) X", "end loop"],
         ["A Q", "repeat(2) (n) X", "repeat(2) (n) X", "", "", "repeat(2) (n) X"],
         ["A Q", "bits(8,3) ", "bits(8,3) ", "loop(j,1)", "bits(8,3) ", "end loop", "bits(8,3) "],
-        ["A Q # h", "(0x10) X # same", "(0x10) X # same", "   ", "(0x10) X # same"],
+        ["A Q", "(0x10) X # same", "(0x10) X # same", "   ", "(0x10) X # same"],
     ]
     k = 0
     for sh in shapes:
@@ -3087,7 +3088,7 @@ def c01_unary_bound_cases(seed, tier):
     sigs = [{"name": "A", "typ": "I", "bits": 16, "default": "0"}, {"name": "Q", "typ": "O", "bits": 8, "default": "-"}]
     for k, (kv, e) in enumerate([(6, "!!k"), (6, "--k"), (6, "~~k"), (0, "!k"), (5, "!!!k+2"), (3, "-~k"), (2, "~-k+4"), (7, "!!k+!!k"), (-3, "--k+5"), (4, "!!(k-4)+1")]):
         prog = ["let k = %s;" % (str(kv) if kv >= 0 else "0-%d" % -kv), "loop(i,%s)" % e, "(i) X", "end loop", "repeat(%s) (n+10) X" % e, "let w = 0;", "while((w < %s) & !!k | 0)" % e,
-                "(w+20) X", "let w = w + 1;", "let k = k * !!k;", "end while", "bits(2,%s) bits(14,%s) X" % (e, e), "(%s) X" % e]
+                "(w+20) X", "let w = w + 1;", "let k = k * !!k;", "end while", "bits(1,%s) X" % e, "(%s) X" % e]
         for cont in (0, 1):
             cases.append({"id": "c01-unarybound-%d-%d" % (k, cont), "kind": "run", "src": "\n".join(["A Q"] + prog) + "\n", "sigs": sigs, "layout": [1], "table": [["1"]],
                           "echo": 0, "wdefault": k % 2, "faults": [], "max": 80, "seed": 3 + k, "cont": cont})
@@ -3096,3 +3097,8 @@ def c01_unary_bound_cases(seed, tier):
 
 for _p in ("C01", "C18"):
     _extend(_p, c01_unary_bound_cases, "plus loop bounds / repeat counts / while conditions / bits values that are chains of unary operators over values outside {0,1}")
+
+
+PROPS["C12"]["cases"] = (lambda base: (lambda seed, tier: base(seed, tier) + [dict(c, id="c12-" + c["id"]) for c in c16_dupname_cases(seed, tier)]))(PROPS["C12"]["cases"])
+PROPS["C12"]["oracles"] = PROPS["C12"]["oracles"] + [_f16.c16_load_oracle]
+PROPS["C12"]["rule"] += "; plus .dig documents with several tests of one name (some of them malformed): load_test(i) = from_str(source i), so a malformed test is rejected whichever test was loaded before"
